@@ -420,6 +420,41 @@ def _job(a):
     return results
 
 
+API_PROGRAMS = [
+    "def p(a: bool, b: bool, c: bool) -> bool:\n\treturn (a or b) ^ ((a or b) and c)",
+    "def p(a: bool, b: bool, c: bool, d: bool) -> bool:\n\treturn ((a or d or b) and (a ^ d)) or ((c and b) and (a == c))",
+    "def p(a: Qint[2], b: Qint[2]) -> Qint[2]:\n\treturn a + b",
+    "def p(a: Qint[2], b: Qint[2]) -> bool:\n\treturn a > b",
+    "def p(a: Qint[4]) -> bool:\n\treturn a == 3 or a == 7",
+    "def p(a: bool, b: bool) -> Tuple[bool, bool]:\n\tc = a and b\n\treturn (c, c ^ a)",
+]
+
+
+def job_api(a):
+    """the wrapper between the user and the verified function: QlassF.compile(compiler, uncompute) must store exactly the circuit
+    to_quantum builds from the function's own fields for THOSE settings - whatever the function was compiled with before (so that the
+    obligations on to_quantum carry over to every way of getting a compiled function)"""
+    idx, prof, first, second, prop = a
+    from qlasskit.compiler import to_quantum
+    src = API_PROGRAMS[idx]
+    name = f"{prop}.QlassF.compile.is-to_quantum-on-own-fields[{prof},{hashlib.sha1(src.encode()).hexdigest()[:8]},built uncompute={first},then compile(uncompute={second})]"
+    base = dict(strength="bounded", backend="structural", program=src)
+
+    def view(qc):
+        return ([(type(g).__name__, list(w), p_) for g, w, p_ in qc.gates], dict(qc.qubit_map), qc.num_qubits)
+    try:
+        qf = bounded.front_end(src, prof, compile_=first is not None, uncompute=bool(first))
+        qf.compile(uncompute=second)
+        got = view(qf.circuit())
+        want = view(to_quantum(name=qf.name, args=qf.args, returns=qf.returns, exprs=qf.expressions, compiler="internal", uncompute=second))
+    except Exception as ex:  # noqa
+        return [res(name, REFUTED, replayed=True, replay=dict(program=src, observed=f"raises {type(ex).__name__}: {ex}"[:200]), **base)]
+    if got != want:
+        return [res(name, REFUTED, replayed=True, replay=dict(program=src, call=f"qlassf(program, uncompute={first}); qf.compile(uncompute={second}); qf.circuit()",
+                                                               observed=dict(gates=str(got[0])[:600], qubits=got[2]), expected=dict(gates=str(want[0])[:600], qubits=want[2])), **base)]
+    return [res(name, PROVED, nontrivial=True, **base)]
+
+
 def all_jobs(tier, prop):
     from .c01_l3 import family
     js = []
@@ -440,6 +475,8 @@ def run_for(prop, tier, only=None):
     rep = Report(prop, tier, "exploration", f"./check {prop} --tier {tier}")
     rs = run_pool(job, all_jobs(tier, prop), chunksize=2)
     rs = [r for r in rs if r.get("prop", prop) == prop or r["status"] == common.ENGINE]
+    rs += run_pool(job_api, [(i, prof, f, s_, prop) for i in range(len(API_PROGRAMS)) for prof in ("default", "fast")
+                             for f, s_ in ((False, True), (True, False), (True, True), (None, True), (None, False))], chunksize=4)
     if prop == "C02":
         # local layer: step contracts of the node compilers, discharged for all qubit values (modular over the contract of compile_expr)
         from . import c02_local
